@@ -17,31 +17,31 @@ CHECKS = {
     "C03": {
         "engine": "E3", "level": "model_checking",
         "technique": "stateless schedule exploration of a real writer thread against a real reader thread under a cooperative scheduler with iterative preemption bounding at storage-call granularity; oracle = per-generation probe model from a sequential run",
-        "text": "For storage {file mmap, file no-mmap, RAM} x {compound, loose} x 11 writer histories (append, optimize, delete-only, add+optimize, CLEAR, default merge, update, delete+optimize and two-transaction histories): a reader opens a searcher, probes stored fields/lexicon/postings/search, probes lazily opened parts (sort column, vectors), asks up_to_date(), refreshes, probes, opens a fresh searcher and probes, while the writer commits; every schedule with <=2 (thorough 3) preemptions runs on the real code. Every probe must equal the model of the generation the searcher reports; opened/refreshed searchers must report a generation between the last commit completed before the call and the last completed by its end; up_to_date() must agree; no exception may escape.",
+        "text": "For storage {file mmap, file no-mmap, RAM} x {compound, loose} x 14 writer histories (append, optimize, delete-only, add+optimize, CLEAR, default merge, update, delete+optimize, a second delete on a segment, an empty commit, two-transaction histories), reader and writer on separate Index objects or sharing ONE Index object (with a cancelled delete in between), multi- and single-segment start states: a reader opens a searcher, probes stored fields/lexicon/postings/search, probes lazily opened parts (sort column, vectors), asks up_to_date(), refreshes, probes, opens a fresh searcher and probes, while the writer commits; every schedule with <=2 (thorough 3) preemptions runs on the real code. Every probe must equal the model of the generation the searcher reports; opened/refreshed searchers must report a generation between the last commit completed before the call and the last completed by its end; up_to_date() must agree; no exception may escape.",
         "note": "Trusted: scheduler owns storage-level nondeterminism (threads stand in for processes); generation models come from a sequential run of the same history; commit instant = TOC rename.",
     },
     "C04": {
         "engine": "E3", "level": "model_checking",
         "technique": "stateless schedule exploration of real writer threads under a cooperative scheduler with iterative preemption bounding (storage-call, lock and polling-sleep granularity), monitors at every step and an end-state oracle",
-        "text": "2-3 real writer threads race on one index (FileStorage with the real flock; RamStorage with its lock made visible to the scheduler) for every pair of endings {commit, cancel, exception in with-block, clean with-block}, with and without polling timeouts, with deletes and merging commits: every schedule with <=2 preemptions (3 writers: 1; thorough 3/2) is executed on the real code. Checked: at most one lock holder and no index-file mutation without the lock at every step; no deadlock/livelock; only LockError escapes writer(); final documents = fold of successful commits; generation advanced by exactly the number of successful commits; the index is writable afterwards.",
+        "text": "2-3 real writer threads race on one index (FileStorage with the real flock; RamStorage with its lock made visible to the scheduler) for every pair of endings {commit, cancel, exception in with-block, clean with-block}, with and without polling timeouts, with deletes and merging commits, an AsyncWriter (write-through or buffering with its replay thread) against a writer that keeps its transaction open, and three writers with open(2)/flock(2) of the lock file as separate steps: every schedule with <=2 preemptions (3 writers: 1; thorough 3/2) is executed on the real code. Checked: at most one lock holder and no index-file mutation without the lock at every step; no deadlock/livelock; only LockError escapes writer(); final documents = fold of successful commits; generation advanced by exactly the number of successful commits; the index is writable afterwards.",
         "note": "Trusted: the scheduler owns all nondeterminism that threads share through the directory (storage calls, locks, polling sleeps under a virtual clock); a determinism gate replays the default schedule twice. Cross-process flock is represented by flock between file descriptors of one process.",
     },
     "C05": {
         "engine": "E1", "level": "exploration",
         "technique": "bounded-exhaustive enumeration of query trees x posting-list alignments x k x weighting models x block sizes x layouts, differential against the exhaustive ranking of the same searcher",
-        "text": "Every binary operator over all 64x64 posting-list alignments of a 6-document universe corpus with 1-3 postings per block (so block skipping and matcher replacement engage, which is measured), 3-leaf/nested/boosted/special-leaf trees over 12 representative alignments, k=1..5, eight weighting configurations, filter/mask/collapse/terms variants: the limited search must equal the prefix of the unlimited one. Complete within those bounds.",
+        "text": "Every binary operator over all 64x64 posting-list alignments of a 6-document universe corpus with 1-3 postings per block (so block skipping and matcher replacement engage, which is measured), 3-leaf/nested/boosted/special-leaf trees over 12 representative alignments, k=1..5, twelve weighting configurations, filter/mask/collapse/terms variants, plus 12 positional queries (Phrase with slop, Phrase inside Or/And/AndMaybe, SpanNear/Near2/First/Or/Not/Before/Contains) over every assignment of 8 token sequences to 4 (thorough 5) documents x block size x segment split: the limited search must equal the prefix of the unlimited one. Complete within those bounds.",
         "note": "Trusted: search(limit=None) as the reference ranking (its own correctness is C01/C09), float tolerance 1e-9. Bounds: 6 documents, depth<=2.",
     },
     "C06": {
         "engine": "E1", "level": "exploration",
         "technique": "bounded-exhaustive enumeration of operation lists x commit splits x per-commit merge choices x block sizes x writer front-ends on the real code, layouts merged by physical signature, each compared with the single-commit optimised build and a dictionary model",
-        "text": "Operation lists up to length 3-7 over {add, group(parent,child), update, delete, update of a deleted key, remove_field} on a schema covering positions/chars/boosts, vectors, columns and stored-only fields; every split into commits x {merge=False, default MERGE_SMALL, optimize, custom merge of the two oldest segments} x blocklimit {2,128} x {plain, BufferedWriter, AsyncWriter, SerialMpWriter, MpWriter in real processes}. Every reached physical layout is dumped (stored values, lexicon, postings with weights/positions/chars/boosts, lengths, vectors, columns, statistics and BM25F scores when nothing is deleted) and must equal the reference; optimize must leave one clean segment; groups must stay adjacent.",
+        "text": "Operation lists up to length 3-7 over {add, group(parent,child), update, delete, update of a deleted key, remove_field} on a schema covering positions/chars/boosts, vectors, columns of indexed fields, pure COLUMN fields (neither indexed nor stored) and stored-only fields; every split into commits x {merge=False, default MERGE_SMALL, optimize, custom merge of the two oldest segments} x blocklimit {2,128} x {plain, BufferedWriter, AsyncWriter, SerialMpWriter, MpWriter in real processes}. Every reached physical layout is dumped (stored values, lexicon, postings with weights/positions/chars/boosts, lengths, vectors, columns, statistics and BM25F scores when nothing is deleted) and must equal the reference; optimize must leave one clean segment; groups must stay adjacent.",
         "note": "Trusted: canonical dump (mc/dump.py) keyed by the stored unique key; layouts with equal segment signatures are assumed to have equal futures; layout-dependent quantities are only compared when no document is deleted.",
     },
     "C07": {
         "engine": "E4", "level": "model_checking",
         "technique": "explicit-state BFS where one transition is one writer transaction on a real index, states deduplicated by a canonical form of the real index, dictionary model checked through every read API in every state",
-        "text": "Transactions of 0-2 ops (thorough 3) from {add, update, delete_by_term on key/word, delete_by_query over Or/Not/Every/And, delete_document on every live docnum, undelete, add_field/remove_field} x endings {commit merge=False / default / optimize, cancel, exception in with-block, with-exit, Index convenience calls} x unique-field configurations {ID, NUMERIC, two unique fields} x storage, from the empty index and from a 5-segment index with deletions; BFS to depth 3-4 (thorough 4-5). In every state all read APIs must agree with the dictionary model; delete_by_* return values are exact; cancel/exception leave dump, generation and lock exactly as before.",
+        "text": "Transactions of 0-2 ops (thorough 3) from {add, update, delete_by_term on key/word, delete_by_query over Or/Not/Every/And, delete_document on every live docnum, undelete, add_field/remove_field} x endings {commit merge=False / default / optimize, cancel, exception in with-block, with-exit, Index convenience calls} x unique-field configurations {ID, NUMERIC, two unique fields} x storage, from the empty index and from a 5-segment index with deletions; BFS to depth 3-4 (thorough 4-5). plus undelete/delete swaps inside one segment that already has a deletion. In every state all read APIs (including a posting list positioned with skip_to() on every document number) must agree with the dictionary model, and a searcher held from before the transaction and refresh()ed after the commit must read exactly like a freshly opened one; delete_by_* return values are exact; cancel/exception leave dump, generation and lock exactly as before.",
         "note": "Trusted: dictionary model with the documented update/delete semantics; canonical state = per-segment (key, text, deleted) lists + schema.",
     },
     "C08": {
@@ -107,7 +107,7 @@ CHECKS = {
     "C18": {
         "engine": "E3", "level": "model_checking",
         "technique": "bounded-exhaustive enumeration of operation lists x storage x packing x writer front-end against a reference dump (sequential product), plus stateless schedule exploration of AsyncWriter/BufferedWriter threads under a cooperative scheduler with line-level points inside the front-ends",
-        "text": "Part A: every operation list of length <=2 (thorough 3) over {add, update, delete} x 2 keys x 2 texts through {RAM, file mmap, file no-mmap, copy_to_ram} x {compound, loose} x {plain, BufferedWriter limit 1-3, AsyncWriter, SerialMpWriter, MpWriter with real processes (procs 2; procs 3 multisegment)} must give the reference canonical dump. Part B: an AsyncWriter racing a plain writer that holds the lock (commit/cancel, with a delete), and a BufferedWriter shared by two adder threads, an observer (searcher() must show exactly the documents whose add had returned / started) and its flush timer: every schedule with <=1 (thorough 2) preemptions; afterwards close() must leave exactly all documents on disk.",
+        "text": "Part A: every operation list of length <=2 (thorough 3) over {add, update, delete} x 2 keys x 2 texts through {RAM, file mmap, file no-mmap, copy_to_ram} x {compound, loose} x {plain, BufferedWriter limit 1-3, AsyncWriter, SerialMpWriter, MpWriter with real processes (procs 2; procs 3 multisegment)} must give the reference canonical dump. Part C: operation lists incl. sparse documents on a schema whose ID/TEXT/KEYWORD/NUMERIC fields all have sort columns plus a dynamic (glob) field, through BufferedWriter limit 1-4: after EVERY operation the writer's own searcher (stored fields, every column value, vectors, lengths, postings, sort orders) and after close() the reopened index must equal the plain-writer reference. Part D: the same lists and schema through plain/Buffered/Async/SerialMp/Mp (2 procs; 3 procs multisegment)/copy_to_ram. Part B: an AsyncWriter racing a plain writer that holds the lock (commit/cancel/optimize; the holder renumbers documents or adds the term the AsyncWriter deletes), and a BufferedWriter shared by two adder threads, an observer (searcher() must show exactly the documents whose add had returned / started) and its flush timer: every schedule with <=1 (thorough 2) preemptions; afterwards close() must leave exactly all documents on disk.",
         "note": "Trusted: reference = plain writer on RAM with one transaction per operation; scheduler owns storage/lock/sleep and (inside BufferedWriter methods) line-level nondeterminism. Real MpWriter process timing is not controlled, only its outcome is compared.",
     },
     "C19": {
